@@ -90,11 +90,16 @@ impl Pattern {
             },
             HirKind::Class(_) => 2,
             HirKind::Look(_) => 0,
+            // Saturating arithmetic: nested counted repetitions such as `((a{65535}){65535}){65535}`
+            // must not overflow (a panic in debug builds of the derive)
             HirKind::Repetition(repetition) => {
-                repetition.min as usize * Self::complexity(&repetition.sub)
+                (repetition.min as usize).saturating_mul(Self::complexity(&repetition.sub))
             }
             HirKind::Capture(capture) => Self::complexity(&capture.sub),
-            HirKind::Concat(hirs) => hirs.iter().map(Self::complexity).sum(),
+            HirKind::Concat(hirs) => hirs
+                .iter()
+                .map(Self::complexity)
+                .fold(0, usize::saturating_add),
             HirKind::Alternation(hirs) => hirs.iter().map(Self::complexity).min().unwrap_or(0),
         }
     }
